@@ -16,7 +16,7 @@ def Step1 (now : Nat) (c c' : Conn) : Prop :=
   (c'.tmo = 0 ∨ c'.closed = true ∨ (c'.tmo = c.tmo ∧ (c'.la = now ∨
     (c'.la = c.la ∧ (c.suspended = true → c'.suspended = true)))))
 
-def Steps (d d' : Daemon) : Prop := d'.now = d.now ∧ ∀ j, Step1 d.now (d.c j) (d'.c j)
+def Steps (d d' : Daemon) : Prop := d'.now = d.now ∧ d'.back = d.back ∧ ∀ j, Step1 d.now (d.c j) (d'.c j)
 
 theorem Step1.refl (now : Nat) (c : Conn) : Step1 now c c :=
   ⟨fun h => Or.inl h, Or.inr (Or.inr ⟨rfl, Or.inr ⟨rfl, fun h => h⟩⟩)⟩
@@ -25,17 +25,17 @@ theorem Step1.trans {now : Nat} {a b c : Conn} (h1 : Step1 now a b) (h2 : Step1 
   unfold Step1 at *
   grind
 
-theorem Steps.refl (d : Daemon) : Steps d d := ⟨rfl, fun j => Step1.refl _ _⟩
+theorem Steps.refl (d : Daemon) : Steps d d := ⟨rfl, rfl, fun j => Step1.refl _ _⟩
 
 theorem Steps.trans {a b c : Daemon} (h1 : Steps a b) (h2 : Steps b c) : Steps a c := by
-  refine ⟨by rw [h2.1, h1.1], fun j => ?_⟩
-  have := h2.2 j; rw [h1.1] at this
-  exact Step1.trans (h1.2 j) this
+  refine ⟨by rw [h2.1, h1.1], by rw [h2.2.1, h1.2.1], fun j => ?_⟩
+  have := h2.2.2 j; rw [h1.1] at this
+  exact Step1.trans (h1.2.2 j) this
 
 /-- only the record of `i` changed, and in an admissible way -/
 theorem steps_of_others {i : Id} {d d' : Daemon} (o : Others i d d') (h : Step1 d.now (d.c i) (d'.c i)) :
     Steps d d' := by
-  refine ⟨o.2.2.2.1, fun j => ?_⟩
+  refine ⟨o.2.2.2.1.1, o.2.2.2.1.2, fun j => ?_⟩
   by_cases e : j = i
   · subst e; exact h
   · rw [(o.2.2.2.2 j e).2.2.2]; exact Step1.refl _ _
@@ -71,8 +71,8 @@ theorem expired_before {now : Nat} {c0 c : Conn} (h : Step1 now c0 c) (hc : c.cl
 
 /-! ### every primitive is an admissible step -/
 
-theorem steps_updateLastActivity (d : Daemon) (i : Id) : Steps d (updateLastActivity d i) := by
-  refine steps_of_others (others_updateLastActivity d i) ?_
+theorem steps_updateLastActivity (v : Variant) (d : Daemon) (i : Id) : Steps d (updateLastActivity v d i) := by
+  refine steps_of_others (others_updateLastActivity v d i) ?_
   unfold updateLastActivity Daemon.remNormal Step1
   dsimp only
   repeat' split
@@ -85,8 +85,8 @@ theorem steps_internalSuspend (d : Daemon) (i : Id) : Steps d (internalSuspend d
   repeat' split
   all_goals first | (simp; done) | (simp; grind) | grind
 
-theorem steps_resumeOne (d : Daemon) (i : Id) : Steps d (resumeOne d i) := by
-  refine steps_of_others (others_resumeOne d i) ?_
+theorem steps_resumeOne (v : Variant) (d : Daemon) (i : Id) : Steps d (resumeOne v d i) := by
+  refine steps_of_others (others_resumeOne v d i) ?_
   unfold resumeOne Daemon.remSusp Daemon.insTimeout Step1
   dsimp only
   repeat' split
@@ -132,7 +132,7 @@ theorem steps_epollEvent (d : Daemon) (i : Id) : Steps d (epollEvent d i) := by
     repeat' split
     all_goals first
       | exact Others.refl i d
-      | (refine ⟨rfl, rfl, rfl, rfl, ?_⟩; intro j hj; simp [hj])
+      | (refine ⟨rfl, rfl, rfl, ⟨rfl, rfl⟩, ?_⟩; intro j hj; simp [hj])
   refine steps_of_others o ?_
   unfold epollEvent Step1
   dsimp only
@@ -146,17 +146,17 @@ theorem foldl_steps {f : Daemon → Id → Daemon} (hf : ∀ d i, Steps d (f d i
     rw [List.foldl_cons]
     exact Steps.trans (hf d i) (foldl_steps hf rest (f d i))
 
-theorem steps_flags (d d' : Daemon) (hn : d'.now = d.now) (hc : d'.c = d.c) : Steps d d' :=
-  ⟨hn, fun j => by rw [hc]; exact Step1.refl _ _⟩
+theorem steps_flags (d d' : Daemon) (hn : d'.now = d.now) (hb : d'.back = d.back) (hc : d'.c = d.c) : Steps d d' :=
+  ⟨hn, hb, fun j => by rw [hc]; exact Step1.refl _ _⟩
 
-theorem steps_resumeSuspended (d : Daemon) : Steps d (resumeSuspended d) := by
+theorem steps_resumeSuspended (v : Variant) (d : Daemon) : Steps d (resumeSuspended v d) := by
   unfold resumeSuspended
   dsimp only
-  exact Steps.trans (steps_flags d { d with resuming := false } rfl rfl) (foldl_steps steps_resumeOne _ _)
+  exact Steps.trans (steps_flags d { d with resuming := false } rfl rfl rfl) (foldl_steps (steps_resumeOne v) _ _)
 
 theorem steps_epollWait (d : Daemon) : Steps d (epollWait d) := by
   unfold epollWait
-  exact Steps.trans (steps_flags d { d with kq := [] } rfl rfl) (foldl_steps steps_epollEvent _ _)
+  exact Steps.trans (steps_flags d { d with kq := [] } rfl rfl rfl) (foldl_steps steps_epollEvent _ _)
 
 /-! ### events of a round -/
 
@@ -195,7 +195,7 @@ theorem sound_idleCheck {d0 d : Daemon} (hs : Steps d0 d) (i : Id) (hc : (d.c i)
     simp only [List.mem_singleton, Event.tmoClose.injEq] at hm
     obtain ⟨e, _⟩ := hm
     subst e
-    have s1 := hs.2 j
+    have s1 := hs.2.2 j
     rw [hs.1] at ht
     exact expired_before s1 hc ht
   · exact ⟨Steps.trans hs (steps_epollUpdate d i), evOk_nil d0⟩
@@ -208,12 +208,12 @@ theorem sound_handleIdle {d0 d : Daemon} (hs : Steps d0 d) (i : Id) : Sound d0 (
   · rename_i hc
     exact sound_idleCheck hs i (by simpa using hc)
 
-theorem sound_readData {d0 d : Daemon} (hs : Steps d0 d) (i : Id) : Sound d0 (readData d i) := by
+theorem sound_readData (v : Variant) {d0 d : Daemon} (hs : Steps d0 d) (i : Id) : Sound d0 (readData v d i) := by
   unfold readData
   dsimp only
   have s1 := Steps.trans hs (steps_set_same d i { (d.c i) with unread := false, readReady := false }
     rfl rfl rfl (fun h => h))
-  have s2 := Steps.trans s1 (steps_updateLastActivity _ i)
+  have s2 := Steps.trans s1 (steps_updateLastActivity v _ i)
   split
   · split
     · refine ⟨?_, ?_⟩
@@ -232,14 +232,14 @@ theorem sound_closeOther {d0 d : Daemon} (hs : Steps d0 d) (i : Id) (code : Nat)
   intro j a hm; simp at hm
 
 
-theorem sound_callHandlersSel {d0 d : Daemon} (hs : Steps d0 d) (i : Id) (r : Bool) :
-    Sound d0 (callHandlersSel d i r) := by
+theorem sound_callHandlersSel (v : Variant) {d0 d : Daemon} (hs : Steps d0 d) (i : Id) (r : Bool) :
+    Sound d0 (callHandlersSel v d i r) := by
   unfold callHandlersSel
   dsimp only
   split
   · exact sound_handleIdle hs i
   · split
-    · exact sound_seq2 (sound_readData hs i) (fun d' h' => sound_handleIdle h' i)
+    · exact sound_seq2 (sound_readData v hs i) (fun d' h' => sound_handleIdle h' i)
     · split
       · exact sound_seq2 (sound_closeOther hs i _) (fun d' h' => sound_handleIdle h' i)
       · exact sound_handleIdle hs i
@@ -250,7 +250,7 @@ theorem sound_travSel (v : Variant) (rs : List Id) {d0 : Daemon} : ∀ (l : List
   | i :: rest, d, hs => by
     unfold travSel
     dsimp only
-    have h1 := sound_callHandlersSel hs i (rs.contains i)
+    have h1 := sound_callHandlersSel v hs i (rs.contains i)
     split
     · exact h1
     · exact sound_seq2 h1 (fun d' h' => sound_travSel v rs rest d' h')
@@ -260,7 +260,7 @@ theorem sound_processNew (v : Variant) {d0 d : Daemon} (hs : Steps d0 d) : Sound
   split
   · dsimp only
     refine ⟨?_, ?_⟩
-    · exact Steps.trans hs (Steps.trans (steps_flags d { d with newL := [], haveNew := false } rfl rfl)
+    · exact Steps.trans hs (Steps.trans (steps_flags d { d with newL := [], haveNew := false } rfl rfl rfl)
         (foldl_steps (steps_processOneNew v) _ _))
     · intro i a hm; simp at hm
   · exact ⟨hs, evOk_nil d0⟩
@@ -270,16 +270,16 @@ theorem sound_cleanupAll {d0 d : Daemon} (hs : Steps d0 d) : Sound d0 (cleanupAl
   dsimp only
   refine ⟨?_, ?_⟩
   · exact Steps.trans hs (Steps.trans (foldl_steps steps_freeOne _ _)
-      (steps_flags _ { (d.cleanup.reverse.foldl freeOne d) with cleanup := [] } rfl rfl))
+      (steps_flags _ { (d.cleanup.reverse.foldl freeOne d) with cleanup := [] } rfl rfl rfl))
   · intro i a hm; simp at hm
 
 theorem sound_roundSelect (v : Variant) (d : Daemon) : Sound d (roundSelect v d) := by
   unfold roundSelect
   dsimp only
-  have s1 : Steps d (if d.cfg.allowSuspend then resumeSuspended d else d) := by
-    split; exact steps_resumeSuspended d; exact Steps.refl d
-  have s2 : Steps d { (if d.cfg.allowSuspend then resumeSuspended d else d) with dataPending := false } :=
-    Steps.trans s1 (steps_flags _ _ rfl rfl)
+  have s1 : Steps d (if d.cfg.allowSuspend then resumeSuspended v d else d) := by
+    split; exact steps_resumeSuspended v d; exact Steps.refl d
+  have s2 : Steps d { (if d.cfg.allowSuspend then resumeSuspended v d else d) with dataPending := false } :=
+    Steps.trans s1 (steps_flags _ _ rfl rfl rfl)
   exact sound_seq2 (sound_seq2 (sound_processNew v s2) (fun d' h' => sound_travSel v _ _ d' h'))
     (fun d' h' => sound_cleanupAll h')
 
@@ -298,7 +298,7 @@ theorem sound_scanNormal {d0 : Daemon} : ∀ (l : List Id) (d : Daemon), Steps d
     · exact sound_seq2 (sound_handleIdle hs i) (fun d' h' => sound_scanNormal rest d' h')
     · exact sound_handleIdle hs i
 
-theorem sound_callHandlersE0 {d0 d : Daemon} (hs : Steps d0 d) (i : Id) : Sound d0 (callHandlersE0 d i) := by
+theorem sound_callHandlersE0 (v : Variant) {d0 d : Daemon} (hs : Steps d0 d) (i : Id) : Sound d0 (callHandlersE0 v d i) := by
   unfold callHandlersE0
   dsimp only
   split
@@ -311,7 +311,7 @@ theorem sound_callHandlersE0 {d0 d : Daemon} (hs : Steps d0 d) (i : Id) : Sound 
       · exact sound_handleIdle hs i
       · split
         · split
-          · exact sound_seq2 (sound_readData hs i) (fun d' h' => sound_handleIdle h' i)
+          · exact sound_seq2 (sound_readData v hs i) (fun d' h' => sound_handleIdle h' i)
           · split
             · exact sound_seq2 (sound_closeOther hs i _) (fun d' h' => sound_handleIdle h' i)
             · apply sound_handleIdle
@@ -319,31 +319,31 @@ theorem sound_callHandlersE0 {d0 d : Daemon} (hs : Steps d0 d) (i : Id) : Sound 
               exact steps_set_same d i _ rfl rfl rfl (fun h => h)
         · exact sound_handleIdle hs i
 
-theorem sound_callHandlersE {d0 d : Daemon} (hs : Steps d0 d) (i : Id) : Sound d0 (callHandlersE d i) := by
+theorem sound_callHandlersE (v : Variant) {d0 d : Daemon} (hs : Steps d0 d) (i : Id) : Sound d0 (callHandlersE v d i) := by
   unfold callHandlersE
   dsimp only
-  have h := sound_callHandlersE0 hs i
+  have h := sound_callHandlersE0 v hs i
   split
-  · exact ⟨Steps.trans h.1 (steps_flags _ _ rfl rfl), h.2⟩
+  · exact ⟨Steps.trans h.1 (steps_flags _ _ rfl rfl rfl), h.2⟩
   · exact h
 
-theorem sound_procEready {d0 : Daemon} : ∀ (l : List Id) (d : Daemon), Steps d0 d → Sound d0 (procEready l d)
+theorem sound_procEready (v : Variant) {d0 : Daemon} : ∀ (l : List Id) (d : Daemon), Steps d0 d → Sound d0 (procEready v l d)
   | [], d, hs => ⟨hs, evOk_nil d0⟩
   | i :: rest, d, hs => by
     unfold procEready
-    exact sound_seq2 (sound_callHandlersE hs i) (fun d' h' => sound_procEready rest d' h')
+    exact sound_seq2 (sound_callHandlersE v hs i) (fun d' h' => sound_procEready v rest d' h')
 
 theorem sound_roundEpoll (v : Variant) (d : Daemon) : Sound d (roundEpoll v d) := by
   unfold roundEpoll
   dsimp only
-  have s1 : Steps d (if d.cfg.allowSuspend then resumeSuspended d else d) := by
-    split; exact steps_resumeSuspended d; exact Steps.refl d
-  have s2 : Steps d (epollWait { (if d.cfg.allowSuspend then resumeSuspended d else d) with dataPending := false }) :=
-    Steps.trans (Steps.trans s1 (steps_flags _ _ rfl rfl)) (steps_epollWait _)
+  have s1 : Steps d (if d.cfg.allowSuspend then resumeSuspended v d else d) := by
+    split; exact steps_resumeSuspended v d; exact Steps.refl d
+  have s2 : Steps d (epollWait { (if d.cfg.allowSuspend then resumeSuspended v d else d) with dataPending := false }) :=
+    Steps.trans (Steps.trans s1 (steps_flags _ _ rfl rfl rfl)) (steps_epollWait _)
   exact sound_seq2 (sound_seq2 (sound_seq2 (sound_seq2 (sound_processNew v s2)
     (fun d' h' => sound_scanManual _ d' h'))
     (fun d' h' => sound_scanNormal _ d' h'))
-    (fun d' h' => sound_procEready _ d' h'))
+    (fun d' h' => sound_procEready v _ d' h'))
     (fun d' h' => sound_cleanupAll h')
 
 /-- **Round soundness.**  Whatever the state (reachable or not), loop and variant: a connection closed
